@@ -258,6 +258,13 @@ class Compiler:
             node = node.body
         return node
 
+    def _check_label(self, node: Node, name: str, siblings=()) -> None:
+        """A label may not be nested in a statement with the same label (of the same function)."""
+        if name in siblings or any(
+            ctx.label == name or name in ctx.more_labels for ctx in self.loop_stack
+        ):
+            raise self._syntax_error(node, f"Label '{name}' has already been declared")
+
     def _new_loop_context(self, operands: int = 0) -> LoopContext:
         """Create the context of a loop, taking the label of an enclosing labeled statement."""
         label = self._pending_label
@@ -986,6 +993,7 @@ class Compiler:
             # target and `break label` its exit
             labels = []
             while isinstance(node, LabeledStatement):
+                self._check_label(node, node.label.name, labels)
                 labels.append(node.label.name)
                 node = node.body
             self._pending_label = labels[-1]
@@ -995,6 +1003,7 @@ class Compiler:
         elif isinstance(node, LabeledStatement):
             # Create a loop context for the label
             # is_loop=False so unlabeled break/continue skip this context
+            self._check_label(node, node.label.name)
             loop_ctx = LoopContext(
                 label=node.label.name, is_loop=False, try_depth=len(self.try_stack)
             )
